@@ -192,26 +192,38 @@ def prop_setter(ch, ctx):
     if sp['kind'] == 'M': ctx.cell('set:multi')
     s.T = Tstar
     Xstar = getattr(s, X)
+    # Region predicate `stair`: the installed `thermo` library evaluates the Cn/T integral of several correlations
+    # (HEOS_FIT, ...) as a difference of huge terms, so S(T) is a staircase / noisy at the 1e-7..1e-6 relative level
+    # (C07-F3).  Measure it locally, independently of the setter: deviation of S from a straight line over
+    # T* +- 8e-4 K, in units of the increment expected from the heat capacity over one sample spacing.
+    stair = 0
+    noise = 0.0
+    if X == 'S':
+        hT = 2e-4
+        ys = []
+        for j in range(-4, 5):
+            s.T = Tstar + j * hT
+            ys.append(s.S)
+        s.T = Tstar
+        slope_S = abs(s.C) / Tstar
+        lin = [ys[4] + (j - 4) * hT * slope_S for j in range(9)]
+        noise = max(abs(a - b) for a, b in zip(ys, lin))
+        stair = int(noise > 0.05 * slope_S * hT)
+        ctx.cell(f'set:S:stair={stair}')
     s.T = T0
     flows0 = vs.by_phase(s)
-    try:
-        ctx.call('setter.' + X, setattr, s, X, Xstar, region=region, allowed=(RuntimeError,) if X == 'S' else ())
-    except RuntimeError:
-        # flexsolve gives up ('minimum tolerance reached') when the round-off noise of S(T) exceeds its x-tolerance
-        ctx.reject('entropy solve did not converge (solver RuntimeError)')
+    region = region + f',stair={stair}'
+    ctx.call('setter.' + X, setattr, s, X, Xstar, region=region)
     if vs.by_phase(s) != flows0:
         # the setter switched phases: the target was not reachable in the given phase (outside the domain)
         ctx.reject('setter changed the phase')
     back = getattr(s, X)
     slope = abs(s.C) * (1.0 if X in ('H', 'Hnet') else 1.0 / s.F_mol if X == 'h' else 1.0 / max(Tstar, T0))
-    # Entropy is evaluated from high-order polynomial integrals of Cn/T whose round-off noise was measured at
-    # ~1e-6 relative (S(T+1e-5)-S(T) scatters by 4e-4 on S=420); the S tolerances carry that floor (x20).
-    noise = 2e-5 * abs(Xstar) if X == 'S' else 0.0
-    tol = 100.0 * slope * T_TOL + 1e-9 * abs(Xstar) + 1e-9 + noise
-    T_tol_rt = 1e-4 + noise / slope
+    tol = 100.0 * slope * T_TOL + 1e-9 * abs(Xstar) + 1e-9 + 4 * noise
+    T_tol_rt = 1e-4 + 4 * noise / slope
     err = abs(back - Xstar)
-    ctx.metric_max(f'set:{X}_err/tol', err / tol)
-    ctx.metric_max(f'set:dT:{X}', abs(s.T - Tstar))
+    ctx.metric_max(f'set:{X}_err/tol:stair={stair}', err / tol)
+    ctx.metric_max(f'set:dT:{X}:stair={stair}', abs(s.T - Tstar))
     if err > tol:
         ctx.fail(f'setter.{X}|{region}|readback', f'assigned {Xstar!r}, read back {back!r}; T={s.T!r} T*={Tstar!r} T0={T0!r}')
     if abs(s.T - Tstar) > T_tol_rt:
@@ -220,8 +232,8 @@ def prop_setter(ch, ctx):
     T1 = s.T
     cur = getattr(s, X)
     ctx.call('setter.same.' + X, setattr, s, X, cur, region=region)
-    ctx.metric_max(f'set:same_dT:{X}', abs(s.T - T1))
-    if abs(s.T - T1) > 1e-5 + noise / slope:
+    ctx.metric_max(f'set:same_dT:{X}:stair={stair}', abs(s.T - T1))
+    if abs(s.T - T1) > 1e-5 + 4 * noise / slope:
         ctx.fail(f'setter.same.{X}|{region}|T-moved', f'assigning the current {X} moved T from {T1!r} to {s.T!r}')
     if abs(T0 - Tstar) > 20. or sp['kind'] == 'M':
         ctx.nontriv(['set', X, skey(sp), T0 > Tstar])
